@@ -219,6 +219,8 @@ def _check_set(cell, names, vm, ctx):
         "array_dtype_object_reused": lambda: _twice(list(zip(*[cols[n] for n in names])), numpy.dtype([(n, numpy.float64) for n in names])),
         # an existing structured array as input keeps its own field names
         "array_from_structured": lambda: _from_structured(cols, names),
+        # ... also when its dtype is not packed in declaration order (a multi-field selection of a wider table, explicit offsets)
+        "array_from_structured_offsets": lambda: _from_structured(cols, names, offsets=True),
         "zip": lambda: vector.zip(dict(cols)),
         "zip_ak": lambda: vector.zip({n: ak.Array(cols[n]) for n in names}),
         "Array": lambda: vector.Array([{n: float(cols[n][i]) for n in names} for i in range(3)]),
@@ -310,8 +312,14 @@ def _twice(rows, dt):
     return second
 
 
-def _from_structured(cols, names):
-    src = numpy.zeros(3, dtype=[(n, numpy.float64) for n in names])
+def _from_structured(cols, names, offsets=False):
+    if offsets:
+        k = len(names)
+        dt = numpy.dtype({"names": list(names), "formats": [numpy.float64] * k, "offsets": [8 * (k - 1 - j) + 8 for j in range(k)],
+                          "itemsize": 8 * k + 16})
+        src = numpy.zeros(3, dtype=dt)
+    else:
+        src = numpy.zeros(3, dtype=[(n, numpy.float64) for n in names])
     for n in names:
         src[n] = cols[n]
     before = src.dtype.names
